@@ -3,6 +3,7 @@ package main
 import (
 	"flag"
 	"fmt"
+	"go/types"
 	"os"
 	"regexp"
 	"runtime"
@@ -44,6 +45,8 @@ func main() {
 		}
 	case "replay":
 		code = cmdReplay(os.Args[2:])
+	case "sweep":
+		code = cmdSweep(os.Args[2:])
 	default:
 		fmt.Fprintln(os.Stderr, "unknown command", os.Args[1])
 		code = 2
@@ -177,4 +180,90 @@ func cmdVerify(args []string) int {
 		return 1
 	}
 	return 0
+}
+
+// cmdSweep: zero-annotation no-panic sweep (exploration tool, not a registered check). Every function of the repository
+// whose "pkg.Func" name matches the regexp and that has no contract gets the synthetic contract
+// {requires recv != nil; nopanic; modifies *}; failing panic edges are printed as candidates for triage.
+func cmdSweep(args []string) int {
+	fs := flag.NewFlagSet("sweep", flag.ExitOnError)
+	timeout := fs.Int("t", 10, "solver timeout (s)")
+	fs.Parse(args)
+	if fs.NArg() < 1 {
+		fmt.Fprintln(os.Stderr, "usage: govc sweep <func-regex>")
+		return 2
+	}
+	re := regexp.MustCompile(fs.Arg(0))
+	w, err := setupWorld(nil)
+	if err != nil {
+		fmt.Fprintln(os.Stderr, "load:", err)
+		return 2
+	}
+	var keys []string
+	for k, fi := range w.funcs {
+		if _, has := w.contracts[k]; has || fi.Decl.Body == nil || !re.MatchString(shortName(k)) {
+			continue
+		}
+		sig := fi.Obj.Type().(*types.Signature)
+		c := &Contract{File: "sweep", PkgName: fi.Pkg.Name, Header: "sweep " + shortName(k), FuncName: fi.Obj.Name(), ModAll: true, NoPanic: true,
+			Invariants: map[int][]*Clause{}, Decreases: map[int]*CE{}, Unroll: map[int]int{}, Opts: map[string]string{}}
+		for i := 0; i < sig.Params().Len(); i++ {
+			n := sig.Params().At(i).Name()
+			if n == "" || n == "_" {
+				n = fmt.Sprintf("p%d", i)
+			}
+			c.Params = append(c.Params, n)
+		}
+		for i := 0; i < sig.Results().Len(); i++ {
+			c.Results = append(c.Results, fmt.Sprintf("r%d", i))
+		}
+		if sig.Recv() != nil && fi.Decl.Recv != nil && len(fi.Decl.Recv.List[0].Names) > 0 {
+			c.RecvName = fi.Decl.Recv.List[0].Names[0].Name
+			if _, isPtr := sig.Recv().Type().(*types.Pointer); isPtr {
+				e, perr := parseCEString(c.RecvName + " != nil")
+				if perr == nil {
+					c.Requires = append(c.Requires, &Clause{Kind: "requires", Expr: e, Text: c.RecvName + " != nil", N: 1})
+				}
+			}
+		}
+		w.contracts[k] = c
+		w.conObj[c] = fi.Obj
+		keys = append(keys, k)
+	}
+	sort.Strings(keys)
+	ctxs := map[string]*FuncCtx{}
+	var obls []*Obligation
+	for _, k := range keys {
+		f, err := w.verifyFunc(k)
+		if err != nil {
+			fmt.Println("SKIP ", err)
+			continue
+		}
+		ctxs[f.key] = f
+		for _, o := range f.obls {
+			if o.Kind == "nopanic" || strings.Contains(o.ID, "#pre(") {
+				obls = append(obls, o)
+			}
+		}
+	}
+	solveAll(w, ctxs, obls, *timeout, false)
+	bad := 0
+	for _, o := range obls {
+		if o.Res.Verdict != o.Expect {
+			bad++
+			fmt.Printf("CAND  %-8s %s\n", o.Res.Verdict, o.ID)
+		}
+	}
+	fmt.Printf("sweep: %d functions, %d panic/precondition obligations, %d candidates\n", len(keys), len(obls), bad)
+	return 0
+}
+
+func parseCEString(s string) (*CE, error) {
+	p := &cparser{src: s}
+	p.lex()
+	if p.err != nil {
+		return nil, p.err
+	}
+	e := p.parseExpr(0)
+	return e, p.err
 }
